@@ -726,6 +726,32 @@ fn configs(tier: &str, rng: &mut Rng) -> Vec<Cfg> {
         push(codec, comp, Some((*rng.pick(&[2u32, 3, 4, 10, 100]), *rng.pick(&[3_600_000u64, 3_600_000, 40]))), n, 0, &mut v);
         v.last_mut().unwrap().sizes = Some(sizes);
     }
+    // incompressible batches whose encoding lies at, or a little under, the frame limit, with every compressor: the
+    // compressed form of incompressible data is a few bytes to a few hundred bytes *larger* than its input
+    {
+        const LIMIT: usize = 1024 * 1024;
+        let algos = ["lz4", "zstd", "gzip", "zlib", "brotli-generic", "zstd-fastest"];
+        let slacks: &[usize] = if thorough { &[0, 1, 8, 16, 40, 100, 200, 340, 400, 1000, 5000] } else { &[0, 16, 200, 1000] };
+        for (ai, algo) in algos.iter().enumerate() {
+            for (si, d) in slacks.iter().enumerate() {
+                if !thorough && (ai + si) % 2 == 1 {
+                    continue;
+                }
+                let n = 4usize;
+                let body = LIMIT - d - 8 - 8 * n;
+                let q = body / n;
+                let mut sizes = vec![q; n - 1];
+                sizes.push(body - q * (n - 1));
+                let tail = (ai + si) % 3 != 0;
+                if tail {
+                    sizes.push(10);
+                }
+                let count = sizes.len();
+                push("bytes", Some(algo), Some((n as u32, 3_600_000)), count, 0, &mut v);
+                v.last_mut().unwrap().sizes = Some(sizes);
+            }
+        }
+    }
     // batches of individually legal, incompressible messages whose *combined* encoding exceeds one frame
     for (k, sizes) in [vec![400_000usize, 400_000, 400_000, 10, 10], vec![10, 700_000, 700_000, 10], vec![1_000_000, 1_000_000, 20], vec![524_288, 524_288, 5, 5, 5]].into_iter().enumerate() {
         let n = sizes.len();
